@@ -32,7 +32,7 @@ ASSUMPTIONS = [
 
 
 def gen_case(rng: random.Random, tier: str) -> dict:
-    g = gen.gen_program(rng)
+    g = gen.gen_program(rng, feats={**gen.gen_feats(rng), "gens": rng.random() < 0.3})
     inp = gen.program_inputs(rng, g)
     fns = gen.fn_nodes(g)
     faults = []
